@@ -108,12 +108,15 @@ class Scaler(Transformer):
         params = self.get_params()
 
         # Scaling parameters are computed along sample dimensions
+        # Features that are missing throughout have no statistics. Keep the
+        # scaling parameters finite there, otherwise they mask whatever new data
+        # carry at these features before the sanitizer compares the NaN features
         if params["with_center"]:
-            self.mean_: DataVar = X.mean(self.sample_dims)
+            self.mean_: DataVar = X.mean(self.sample_dims).fillna(0)
 
         if params["with_std"]:
-            self.std_: DataVar = X.std(self.sample_dims).clip(
-                min=np.finfo(np.float32).eps
+            self.std_: DataVar = (
+                X.std(self.sample_dims).clip(min=np.finfo(np.float32).eps).fillna(1)
             )
 
         if params["with_coslat"]:
